@@ -105,7 +105,9 @@ def run_harness(h, tier, seed, pid, scratch):
     env = {"JAX_PLATFORMS": "cpu", "PYTHONPATH": os.path.join(ROOT, "replay") + (":" + SRC if SRC != "/repo/src" else ""), "VERIF_SCRATCH": scratch,
            "MDPAX_VERIF": "1"}
     env.update(h.get("env", {}))
-    rc, out, err = sh(cmd, timeout=h.get("wall_s", 600) * (6 if tier == "thorough" else 1), env=env)
+    # wall_s is the expected duration on an idle machine times ~3; the limit itself is 3 x that again: with the 16 cores five times oversubscribed
+    # (load average 80) the solver harnesses were seen to need > 300 s, and a harness that is merely slow must not turn into an engine error
+    rc, out, err = sh(cmd, timeout=h.get("wall_s", 600) * (6 if tier == "thorough" else 3), env=env)
     try:
         rep = json.load(open(out_json))
     except Exception:
